@@ -338,7 +338,7 @@ struct CppWorld : World {
                 else if (k < 88) pl.add("hpad", {h});
                 else if (k < 93) { pl.add("hreset", {h}); hfinished[h] = false; }
                 else if (k < 95) pl.add("hdigest", {(int64_t)r.below(2), (int64_t)pick_len(r), (int64_t)(r.next() >> 1)});
-                else if (k < 97) pl.add("helper", {(int64_t)r.below(8), (int64_t)r.pickv({0, 1, 2, 7, 16, 33, 100}), (int64_t)r.below(6), (int64_t)(r.next() >> 1)});
+                else if (k < 97) pl.add("helper", {(int64_t)r.below(8), (int64_t)r.pickv({0, 1, 2, 7, 16, 33, 100, 127, 128, 129, 255, 256, 257, 300, 600}), (int64_t)r.below(6), (int64_t)(r.next() >> 1)});
                 else { pl.add("hdel", {h}); hlive[h] = false; }
             }
         }
@@ -696,7 +696,7 @@ struct CppWorld : World {
             } else if (nm == "helper") {
                 // the byte-array helper functions of utility.h against the C functions they wrap (C17: "returns exactly
                 // what the corresponding C function returns")
-                size_t n = (size_t)(op.u(1) % 300);
+                size_t n = (size_t)(op.u(1) % 700);
                 int shape = (int)(op.u(2) % 6); // 0 clean, 1 white space inside, 2 an illegal character, 3 odd digit count, 4 upper case, 5 empty
                 Bytes d = bytes_of(shape == 5 ? 0 : n, op.u(3));
                 bool upper = (op.u(0) & 1) != 0;
